@@ -680,6 +680,115 @@ pub fn diag(rng: &mut Rng, count: u64, emit: Emit) {
     }
 }
 
+/// S-TEXT: arbitrary texts as HCL files (token soup, truncations and single-token edits of valid programs, CR/CRLF,
+/// non-ASCII, invalid UTF-8 made lossy like the real reader does): parse, build, and render the diagnostics
+pub fn anytext(rng: &mut Rng, count: u64, emit: Emit) {
+    use hclrs::{parse_y86_hcl, FileContents};
+    use std::panic::{catch_unwind, AssertUnwindSafe};
+    let pre = hclrs::verif_hooks::y86_preamble();
+    let toks: [&str; 40] = ["wire", "const", "register", "in", "x", "pc", "Stat", "=", "==", ";", ":", ",", "(", ")", "[", "]", "{", "}", "..",
+        "+", "-", "*", "/", "&&", "||", "!", "~", "<", ">>", "0", "1", "0b101", "0x1f", "8", "é", "€", "/*", "*/", "#", "\""];
+    for _ in 0..count {
+        let mode = rng.below(9);
+        let mut bytes: Vec<u8> = if mode == 0 { random_text(rng).into_bytes() } else if mode == 8 {
+            // a half-wired built-in component whose enable signal is a constant expression of any kind
+            let nasty: [&str; 16] = ["0b11[3..1]", "1/0", "[0:1]", "0b11 && 1", "(0xffffffffffffffffffffffffffffffff .. 0b1)", "[1 : 0x100; 0 : 0b1]",
+                "0", "1", "undefined_w", "-0", "0b1[0..0]", "!0b11", "1 in {0b11, 0b1}", "[0b1 : 0b0; 1 : 1]", "0b0", "(1 .. 1)"];
+            let e = *rng.pick(&nasty[..]);
+            let body = match rng.below(3) {
+                0 => format!("mem_writebit = {};\nmem_addr = 0;\n", e),
+                1 => format!("mem_writebit = {};\nmem_input = 0;\n", e),
+                _ => format!("mem_readbit = {};\n", e),
+            };
+            format!("pc = 0; Stat = STAT_AOK;\n{}", body).into_bytes()
+        } else {
+            let profile = *rng.pick(&[Profile::Dag, Profile::Banks, Profile::RegFile, Profile::Memory, Profile::Status]);
+            let g = proggen::program(rng, profile);
+            proggen::render_program(&g.stmts).into_bytes()
+        };
+        let mut how = String::from("soup");
+        if mode != 0 && !bytes.is_empty() {
+            match mode {
+                8 => { how = String::from("half-wired-component"); }
+                1 => { let cut = rng.below(bytes.len() as u64 + 1) as usize; bytes.truncate(cut); how = String::from("truncated"); }
+                2 | 3 | 4 => {
+                    // edit at a blank: insert, delete or substitute one token
+                    let text = String::from_utf8_lossy(&bytes).into_owned();
+                    let mut words: Vec<String> = text.split(' ').map(|w| w.to_string()).collect();
+                    let k = rng.below(words.len() as u64) as usize;
+                    let t = String::from(*rng.pick(&toks[..]));
+                    if mode == 2 { words.insert(k, t); how = String::from("token-inserted"); }
+                    else if mode == 3 { words.remove(k); how = String::from("token-deleted"); }
+                    else { words[k] = t; how = String::from("token-substituted"); }
+                    bytes = words.join(" ").into_bytes();
+                }
+                5 => {
+                    let text = String::from_utf8_lossy(&bytes).into_owned();
+                    let eol = *rng.pick(&["\r\n", "\r", "\n\n"][..]);
+                    bytes = text.replace("\n", eol).into_bytes();
+                    how = String::from("line-endings");
+                }
+                6 => {
+                    let pos = rng.below(bytes.len() as u64) as usize;
+                    let junk: &[u8] = *rng.pick(&[&b"\xff"[..], &b"\xc3"[..], &b"\xe2\x82"[..], &b"\xc3\xa9"[..], &b"\xf0\x9f\x98\x80"[..], &b"\x00"[..]][..]);
+                    for (j, b) in junk.iter().enumerate() { bytes.insert(pos + j, *b); }
+                    if rng.chance(1, 2) { bytes.truncate(pos + junk.len()); }
+                    how = String::from("non-ascii-or-invalid-utf8");
+                }
+                _ => {
+                    // end inside a literal, a comment or a multi-byte character
+                    let tail: &[u8] = *rng.pick(&[&b" x = 0x"[..], &b" x = 0b"[..], &b" /* never closed"[..], &b" x = 12"[..], &b" # c"[..], &b" x = \xe2\x82"[..], &b" x = y\xe2\x82\xac"[..], &b" /"[..], &b" ."[..]][..]);
+                    bytes.extend_from_slice(tail);
+                    how = String::from("ends-inside-a-token");
+                }
+            }
+        }
+        let text = String::from_utf8_lossy(&bytes).into_owned();
+        // rendering of the diagnostics, like main() does
+        let t2 = text.clone();
+        let rendered = catch_unwind(AssertUnwindSafe(|| {
+            let contents = FileContents::new_from_data(pre, &t2, "t.hcl");
+            match parse_y86_hcl(&contents) {
+                Ok(_) => String::from("accepted"),
+                Err(e) => {
+                    let mut buf: Vec<u8> = Vec::new();
+                    e.format_for_contents(&mut buf, &contents).unwrap();
+                    let out = String::from_utf8_lossy(&buf).into_owned();
+                    let nerr = out.lines().filter(|l| l.starts_with("error:")).count();
+                    let internal = out.contains("nternal") as u8;
+                    let builtin = out.contains("<builtin>") as u8;
+                    format!("errors={}/internal={}/builtin={}", std::cmp::min(nerr, 1), internal, builtin)
+                }
+            }
+        }));
+        let rendered = match rendered { Ok(r) => r, Err(_) => String::from("RENDER-PANIC") };
+        let out = run_program_rep(&text, 1, &[], &format!("(text {})", sexp_escape(&text)), 1);
+        match out.request {
+            Some(req) => emit(format!("(anytext (how {}) (render {}) {})", how, rendered, req), out.result),
+            None => {
+                let t3 = text.clone();
+                let res = catch_unwind(move || hclrs::verif_hooks::lex(&t3));
+                let lexed = match res {
+                    Err(_) => String::from("PANIC"),
+                    Ok((toks, err)) => {
+                        let mut items: Vec<String> = toks.iter().map(|(s, t, e)| format!("{}:{}:{}", s, t, e)).collect();
+                        if let Some(es) = err {
+                            for d in es {
+                                let sp: Vec<String> = d.spans.iter().map(|(a, b)| if d.kind == "InvalidConstant" { format!("{}:{}", a, b) } else { format!("{}", a) }).collect();
+                                items.push(format!("ERR:{}:{}", d.kind, sp.join(":")));
+                            }
+                        }
+                        items.join(" ")
+                    }
+                };
+                let cps: Vec<String> = text.chars().map(|c| (c as u32).to_string()).collect();
+                emit(format!("(anytext (how {}) (render {}) (outcome {}) (lex {} (text {})))", how, rendered,
+                             sexp_escape(&out.result), cls3_sexp(&text), cps.join(" ")), lexed);
+            }
+        }
+    }
+}
+
 fn strip_spans(sexp: &str) -> String {
     // "(tag S E " -> "(tag "
     let mut out = String::new();
